@@ -314,10 +314,17 @@ theorem packBool_lc (x : LinComb) (pre rest : List Val) (s : St) :
   rw [getElem?_mid pre (.lc x) [] rest]
   rfl
 
-/-- `PackBool().pack(LinCombBool)` raises `NotImplementedError` (`bool(LinCombBool)`), for every
-boolean and every state; likewise for a `LinCombFxp` -/
-theorem packBool_lcb (b : LinComb) (s : St) :
-    packV .bool (.lcb b) s = .error .notimpl ∧ packV .bool (.fxp b) s = .error .notimpl := ⟨rfl, rfl⟩
+/-- `PackBool().pack(LinCombBool)` returns the secret boolean itself, and `unpack` hands the same object
+back, at any position, without touching the tracer state (repaired: `fix:` commit for C16-pack-bool);
+a `LinCombFxp` still raises `NotImplementedError` (`bool(LinCombFxp)`) -/
+theorem packBool_lcb (b : LinComb) (pre rest : List Val) (s : St) :
+    packV .bool (.lcb b) s = .ok (.list [.lcb b], s) ∧
+    unpackV .bool (pre ++ [.lcb b] ++ rest) pre.length s = .ok (.lcb b, s) ∧
+    packV .bool (.fxp b) s = .error .notimpl := by
+  refine ⟨rfl, ?_, rfl⟩
+  unfold unpackV
+  rw [getElem?_mid pre (.lcb b) [] rest]
+  rfl
 
 /-! ## `PackIntMod` on a secret: pack = `to_bits`, unpack goes through the plain branch -/
 
